@@ -31,6 +31,8 @@ pub enum RespFraming {
     Length,
     Chunked(Vec<usize>),
     Close,
+    /// chunked with a trailer section after the last chunk (RFC 9112 7.1.2)
+    ChunkedTrailers(Vec<usize>, Vec<(String, String)>),
 }
 
 #[derive(Clone, Debug)]
@@ -48,6 +50,8 @@ pub struct ResponseSpec {
     pub delay_ms: u64,
     /// write the last `tail_split` bytes of the response separately, after `pause_us`
     pub tail_split: usize,
+    /// close the connection after this (completely framed) response; the rig adds `Connection: close` itself
+    pub close_after: bool,
 }
 
 impl ResponseSpec {
@@ -63,6 +67,7 @@ impl ResponseSpec {
             reset: false,
             delay_ms: 0,
             tail_split: 0,
+            close_after: false,
         }
     }
     pub fn status(status: u16, body: &[u8]) -> ResponseSpec {
@@ -101,6 +106,21 @@ impl ResponseSpec {
                 } else {
                     out.extend_from_slice(b"Transfer-Encoding: chunked\r\n\r\n");
                     out.extend_from_slice(&rawhttp::encode_chunked(&self.body, sizes));
+                }
+            }
+            RespFraming::ChunkedTrailers(sizes, trailers) => {
+                if bodyless {
+                    out.extend_from_slice(b"\r\n");
+                } else {
+                    out.extend_from_slice(format!("Transfer-Encoding: chunked\r\nTrailer: {}\r\n\r\n", trailers.iter().map(|(n, _)| n.as_str()).collect::<Vec<_>>().join(", ")).as_bytes());
+                    let mut enc = rawhttp::encode_chunked(&self.body, sizes);
+                    // "0\r\n\r\n" -> "0\r\n" + trailer fields + "\r\n"
+                    enc.truncate(enc.len() - 2);
+                    for (n, v) in trailers {
+                        enc.extend_from_slice(format!("{}: {}\r\n", n, v).as_bytes());
+                    }
+                    enc.extend_from_slice(b"\r\n");
+                    out.extend_from_slice(&enc);
                 }
             }
             RespFraming::Close => {
@@ -317,7 +337,7 @@ fn serve_conn(
             }
         }
         let _ = s.flush();
-        if matches!(spec.framing, RespFraming::Close) {
+        if matches!(spec.framing, RespFraming::Close) || spec.close_after {
             let _ = s.shutdown(std::net::Shutdown::Both);
             return;
         }
